@@ -109,7 +109,7 @@ impl Property for C02 {
         "C02"
     }
     fn rule(&self) -> String {
-        "Cases: (dividend of any zoo type/length/provenance, divisor vector of any type/length/provenance or native integer, form in {/ x6, % x6, div_rem}). Divisor classes: value 0 (empty or zeros(m)), 1, a, a+-1, powers of two, small value in a long vector (m > n and m > capacity of the dividend type), half-width random, random. Enumerated: all (n,a,m,b) n,m<=4/6 x 19x19 pairings x {/,%,div_rem}; native lattice; divisor-length sweep m in 1..capacity(L)+70 with value in {1,2,3} for every fixed dividend type and every divisor type able to hold m bits. Oracle: BigUint div_rem; additionally q*b+r=a and r<b asserted on read-back values; zero-valued divisor must panic in every form, non-zero must not. Non-trivial: divisor non-zero, val b <= val a (the subtract loop runs) and the quotient has >= 2 set bits; zero-divisor cases are counted in their own class. Distinct by hash of the whole case.".into()
+        "Cases: (dividend of any zoo type/length/provenance, divisor vector of any type/length/provenance or native integer, form in {/ x6, % x6, div_rem}). Divisor classes: value 0 (empty or zeros(m)), 1, a, a+-1, powers of two, small value in a long vector (m > n and m > capacity of the dividend type), half-width random, random. Enumerated: all (n,a,m,b) n,m<=4/6 x 20x20 pairings x {/,%,div_rem}; native lattice; divisor-length sweep m in 1..capacity(L)+70 with value in {1,2,3} for every fixed dividend type and every divisor type able to hold m bits. Oracle: BigUint div_rem; additionally q*b+r=a and r<b asserted on read-back values; zero-valued divisor must panic in every form, non-zero must not. Non-trivial: divisor non-zero, val b <= val a (the subtract loop runs) and the quotient has >= 2 set bits; zero-divisor cases are counted in their own class. Distinct by hash of the whole case.".into()
     }
     fn random_cases(&self, tier: Tier) -> u64 {
         tier.pick(200000, 8000000)
@@ -127,7 +127,7 @@ impl Property for C02 {
     fn exhaustive_subspaces(&self, tier: Tier) -> Vec<String> {
         let k = tier.pick(4, 6);
         vec![
-            format!("all values of dividend and divisor for all lengths n,m<={} x 19x19 type pairings x {{/,%,div_rem}} (operator form rotates)", k),
+            format!("all values of dividend and divisor for all lengths n,m<={} x 20x20 type pairings x {{/,%,div_rem}} (operator form rotates)", k),
             "divisor-length sweep: every divisor length m in 1..capacity+70 with value 1,2,3 for each fixed dividend type x each divisor type able to hold m bits".into(),
         ]
     }
@@ -228,7 +228,11 @@ impl Property for C02 {
                 let rc = fixed_cap(rt).unwrap_or(c + 70);
                 let a = realize_val(&ValPat::Alt(true), c, 8);
                 let a2 = realize_val(&ValPat::LowOnes(30000), c / 2 + 1, 8);
-                for m in 1..=rc.min(c + 70) {
+                // every divisor length for ordinary types; for the 2560-bit type a dense prefix, a
+                // stride through the middle and every length around the capacity
+                let top = rc.min(c + 70);
+                let ms: Vec<usize> = if c > 300 { (1..=200usize).chain((201..c.saturating_sub(5)).step_by(17)).chain(c.saturating_sub(5)..=top).filter(|&m| m <= top).collect() } else { (1..=top).collect() };
+                for m in ms {
                     for v in [1u128, 2, 3] {
                         if m < 2 && v > 1 {
                             continue;
@@ -260,6 +264,9 @@ impl Property for C02 {
         let bbits = b.bits();
         let n = a.len();
         let desc = || format!("{} {} {} ({:?})", a.describe(), kname, b.describe(), form);
+        if kind != DivKind::DivRem {
+            check_aliased(&za, a, b, if kind == DivKind::Div { BinOp::Div } else { BinOp::Rem }, &what, st)?;
+        }
         let out = self.run(&za, &rb, kind, *form);
         if bbits.is_zero() {
             // every form must panic
